@@ -81,7 +81,22 @@ def element_sources(shape, extra, counter, depth=0):
                 out.append(str(counter[0]))
         else:
             sub = element_sources(it[1], 1, counter, depth + 1)
-            out.append(("(%s,)" if len(sub) == 1 else "(%s)") % ", ".join(sub) if depth % 2 else "[%s]" % ", ".join(sub))
+            j = ", ".join(sub)
+            # nested sources rotate through every iterable kind, one-shot ones included
+            k = counter[0] % 6
+            flat = all(isinstance(x, str) and x != "slice" or (not isinstance(x, str) and x[0] == "*") for x in it[1])
+            if k == 0:
+                out.append("[%s]" % j)
+            elif k == 1:
+                out.append("(%s%s)" % (j, "," if len(sub) == 1 else ""))
+            elif k == 2:
+                out.append("(v for v in [%s])" % j)
+            elif k == 3:
+                out.append("iter([%s])" % j)
+            elif k == 4:
+                out.append("SEQ('n%d', [%s])" % (counter[0], j))
+            else:
+                out.append("{%s}.keys()" % ", ".join("%s: 0" % e for e in sub) if flat else "[%s]" % j)
     return out
 
 
@@ -137,6 +152,36 @@ def pattern_cases(depth2=True):
                         continue   # the bracket style cannot interact with the source kind
                     stmt = "%s = %s" % (tsrc, ssrc)
                     yield ("pat", stmt, list(ctx.names), has_star or nested)
+
+
+CHAINED = [
+    ("pair = (1, 2)", "pair, other = saved = pair", ["pair", "other", "saved"]),
+    ("pair = [1, 2]", "(pair, other) = saved = again = pair", ["pair", "other", "saved", "again"]),
+    ("v = [3, 4]", "saved = v, w = v", ["saved", "v", "w"]),
+    ("v = (5, (6, 7))", "a, (v, c) = keep = v", ["a", "v", "c", "keep"]),
+    ("v = [1, 2, 3]", "*v, last = keep = v", ["v", "last", "keep"]),
+    ("v = 7", "o.a1 = v = keep = v", ["v", "keep"]),
+    ("v = 'k'", "b[v] = v = keep = v", ["v", "keep"]),
+    ("v = [0, 1]", "v[0], v = keep = v", ["v", "keep"]),
+    ("k = 1", "l[k:], k = keep = [9], 2", ["k", "keep"]),
+    ("x = None", "x = y = z = None\nL('same', x is y)", ["x", "y", "z"]),
+    ("x = 10", "x = y = x + 1", ["x", "y"]),
+    ("t = (1, 2)", "t = u, w = t", ["t", "u", "w"]),
+]
+
+
+def chained_cases():
+    for init, stmt, names in CHAINED:
+        for where in ("module", "function", "class"):
+            show = "L('after', %s)" % ", ".join(names + ["o", "b", "l"])
+            body = [init] + stmt.split("\n") + [show]
+            if where == "module":
+                src = PRE + "\n".join(body) + "\n"
+            elif where == "function":
+                src = PRE + "def FF():\n" + "\n".join("    " + x for x in body) + "\nFF()\n"
+            else:
+                src = PRE + "class KK:\n" + "\n".join("    " + x for x in body) + "\n"
+            yield ("chained", src, True)
 
 
 def case_program(stmt, names, where):
@@ -247,6 +292,9 @@ def _pattern_shard(item):
         cfgs = _cfgs(i) if not quick else _cfgs(i)[(i // 3) % 4:][:2]
         check_src(part, tag, case_program(stmt, names, where), nt, cfgs,
                   "destructuring stores differ: %s (%s)" % (stmt, where))
+    if idx == 0:
+        for tag, src, nt in chained_cases():
+            check_src(part, tag, src, nt, env.ALL_CFGS, "chained assignment stores differ")
     if idx == 0:
         part["samples"].append(case_program("(x1, *o.a2, [b['k3'], x4]) = SEQ('s', [11, 12, 13, (14, 15)])", ["x1", "x4"], "function"))
     return part
